@@ -196,6 +196,9 @@ package document
 // the document relationship list (and every other list) is not the owner
 //@ ensures forall r *Relationships :: r != d.relationships ==> r.Relationships == old(r.Relationships)
 //@ ensures unchangedExcept("map:string:[]byte", "Relationships.Relationships", "Relationship.*", "ContentTypes.Overrides", "Override.*")
+// (docRelsResolve is NOT restated here: the document list keeps its slice value and the part map only grows, but that the ENTRIES of
+// the document list keep their fields while the package list is appended to in place needs the two lists to live in different arrays
+// (relsApart, true for every constructor) and an element-wise frame through two calls that the solvers do not compose in time.)
 
 // ---- the single-property setters ---------------------------------------------------------------------------------------------
 // NOT under contract: SetTitle, SetAuthor, SetSubject, SetKeywords, SetDescription, SetCategory, UpdateStatistics. Each reads
@@ -203,3 +206,42 @@ package document
 // time.Time fields are copied field by field) and then calls SetDocumentProperties; everything they do to the package goes
 // through that call. With GetDocumentProperties inlined the wrappers produce ~220 obligations of 100 kB each that do not
 // discharge within the quick budget, so the claim stops at SetDocumentProperties.
+
+// ---- New(): the package skeleton ---------------------------------------------------------------------------------------------
+
+// partHasCT(d, name) (C01 "every part has a content type"): the part has an override for "/" + name, or its extension has
+// a default. Only the two defaults every constructor registers are needed for the parts the library names itself:
+// "xml" for *.xml, "rels" for *.rels (the extension of a literal name is a ground fact, written out at each use).
+//@ spec ctDefaultXML(d *Document) bool = ctHasDefault(d.contentTypes.Defaults, "xml")
+//@ spec ctDefaultRels(d *Document) bool = ctHasDefault(d.contentTypes.Defaults, "rels")
+
+// docRelsResolve(d) (C02): every entry of the DOCUMENT relationship list that is not external names a part that is present:
+// its target t is relative to word/, the part map holds "word/" + t.
+//@ spec docRelsResolve(d *Document) bool = forall j int :: {d.documentRelationships.Relationships[j]} 0 <= j && j < len(d.documentRelationships.Relationships) && d.documentRelationships.Relationships[j].TargetMode != "External" ==> has(d.parts, "word/" + d.documentRelationships.Relationships[j].Target)
+
+// initializeStructure (the second half of New()) builds the package skeleton of a document made from scratch:
+//  * the package relationship list is exactly one entry: rId1, officeDocument, word/document.xml (pkgMainOK, unique ids);
+//  * the content-type list has the defaults "rels" and "xml" and overrides for /word/document.xml and /word/styles.xml,
+//    no part twice;
+//  * the part map gains exactly [Content_Types].xml, _rels/.rels and word/_rels/document.xml.rels, each in an array of its own
+//    (each covered by a default: .xml, .rels, .rels);
+//  * the document relationship list is not touched (New() has just made it empty, so docRelsResolve holds trivially).
+// Everything it writes is the receiver's: the two list objects are fresh, no other document and no other map changes.
+//@ func (*Document).initializeStructure
+//@ props C01, C02
+//@ requires d != nil && d.parts != nil && d.documentRelationships != nil
+//@ ensures d.contentTypes != nil && fresh(d.contentTypes) && freshArr(d.contentTypes.Defaults) && freshArr(d.contentTypes.Overrides)
+//@ ensures d.relationships != nil && fresh(d.relationships) && freshArr(d.relationships.Relationships)
+//@ ensures len(d.relationships.Relationships) == 1 && d.relationships.Relationships[0].ID == "rId1" && d.relationships.Relationships[0].Type == pkgOfficeType() && d.relationships.Relationships[0].Target == "word/document.xml" && d.relationships.Relationships[0].TargetMode == ""
+//@ ensures pkgMainOK(d) && relIDsUnique(d.relationships.Relationships)
+//@ ensures len(d.contentTypes.Defaults) == 2 && d.contentTypes.Defaults[0].Extension == "rels" && d.contentTypes.Defaults[1].Extension == "xml" && ctDefaultXML(d) && ctDefaultRels(d)
+//@ ensures len(d.contentTypes.Overrides) == 2 && d.contentTypes.Overrides[0].PartName == "/word/document.xml" && d.contentTypes.Overrides[1].PartName == "/word/styles.xml" && ctUnique(d.contentTypes.Overrides)
+//@ ensures ctHas(d.contentTypes.Overrides, "/" + "word/document.xml") && ctHas(d.contentTypes.Overrides, "/" + "word/styles.xml")
+//@ ensures has(d.parts, "[Content_Types].xml") && has(d.parts, "_rels/.rels") && has(d.parts, "word/_rels/document.xml.rels")
+//@ ensures freshArr(d.parts["[Content_Types].xml"]) && freshArr(d.parts["_rels/.rels"]) && freshArr(d.parts["word/_rels/document.xml.rels"])
+//@ ensures forall k string :: k != "[Content_Types].xml" && k != "_rels/.rels" && k != "word/_rels/document.xml.rels" ==> has(d.parts, k) == old(has(d.parts, k)) && d.parts[k] == old(d.parts[k])
+//@ ensures forall m map[string][]byte, k string :: m != d.parts ==> (has(m, k) <==> old(has(m, k))) && m[k] == old(m[k])
+//@ ensures forall x *Document :: x != d ==> x.contentTypes == old(x.contentTypes) && x.relationships == old(x.relationships)
+//@ ensures d.documentRelationships == old(d.documentRelationships) && d.parts == old(d.parts)
+//@ ensures old(len(d.documentRelationships.Relationships)) == 0 ==> docRelsResolve(d)
+//@ ensures unchangedExcept("Document.contentTypes", "Document.relationships", "map:string:[]byte")
